@@ -489,6 +489,9 @@ func (s *Writer) loadSnapshot(epoch uint64) (*Snapshot, error) {
 			}
 			return nil, fmt.Errorf("error reading snapshot CRC: %w", err)
 		}
+		// the bytes may point into the mapped file, which is unmapped by the
+		// Close below; keep a copy for the comparison and the error message
+		fileCRCBytes = append([]byte(nil), fileCRCBytes...)
 		if !bytes.Equal(computedCRCBytes, fileCRCBytes) {
 			if closer != nil {
 				_ = closer.Close()
